@@ -22,6 +22,7 @@ import (
 	"github.com/mimecast/dtail/internal/mapr/server"
 	"github.com/mimecast/dtail/internal/protocol"
 	user "github.com/mimecast/dtail/internal/user/server"
+	"github.com/mimecast/dtail/internal/vhook"
 )
 
 type handleCommandCb func(context.Context, lcontext.LContext, int, []string, string)
@@ -99,6 +100,7 @@ func (h *baseHandler) Read(p []byte) (n int, err error) {
 		n, _ = h.readBuf.Read(p)
 
 	case line := <-h.lines:
+		vhook.Point("srv.read.line")
 		if !h.plain {
 			h.readBuf.WriteString("REMOTE")
 			h.readBuf.WriteString(protocol.FieldDelimiter)
@@ -294,12 +296,15 @@ func (h *baseHandler) flush() {
 		dlog.Server.Debug(h.user, "Still lines to be sent")
 		time.Sleep(time.Millisecond * 10)
 	}
+	vhook.Point("srv.flush.timeout")
 	dlog.Server.Warn(h.user, "Some lines remain unsent", numUnsentMessages())
 }
 
 func (h *baseHandler) shutdown() {
 	dlog.Server.Debug(h.user, "shutdown()")
+	vhook.Point("srv.shutdown.begin")
 	h.flush()
+	vhook.Point("srv.shutdown.afterflush")
 
 	go func() {
 		select {
